@@ -27,7 +27,7 @@ MANIFEST = {
                  'granularity inside the package with at most c preemptions '
                  '(iterative preemption bounding, CHESS scheme); per-thread '
                  'results compared with sequential runs',
-    'text': 'For 20 templates (one per block tag, incl. sort_expr with '
+    'text': 'For 21 templates (one per block tag, incl. sort_expr with '
             'per-thread keys, batched in, with only, try/raise, tree) two real threads '
             'render the same template object with thread-specific '
             'namespaces under a scheduler that owns every line event in '
@@ -143,6 +143,8 @@ TEMPLATES = {
     'call': '<dtml-call "lst.append(x)"><dtml-var "lst[0]"><dtml-return y>',
     'sub': '<dtml-var sub><dtml-var x>',
     'tree': '<dtml-tree root>[<dtml-var tpId><dtml-var x>]</dtml-tree>',
+    'treedocs': '<dtml-tree root header=hd footer=ft leaves=lf>'
+                '[<dtml-var tpId>]</dtml-tree>',
 }
 # 'raise' has try + finally + except: not a valid combination -> fix below
 TEMPLATES['raise'] = ('<dtml-try><dtml-raise type="KeyError">r<dtml-var x>'
@@ -171,6 +173,9 @@ def namespace(name, i):
           'seq': seqs[i], 'sk': ('k', 'j', 'k')[i], 'rv': i == 1,
           'st': (1, 2, 1)[i], 'o': o, 'm': {'x': 'mx' + tag}, 'boom': boom,
           'lst': [], 'sub': HTML('[<dtml-var x>]'),
+          'hd': HTML('<tr><td>head-%s</td></tr>' % tag),
+          'ft': HTML('<tr><td>foot-%s</td></tr>' % tag),
+          'lf': HTML('leaf-%s' % tag),
           'root': TNode('r' + tag, [TNode('a' + tag, [TNode('a1')]),
                                     TNode('b' + tag)]),
           'URL': 'http://h/' + tag, 'RESPONSE': Response(),
@@ -248,6 +253,7 @@ BIG_SITES = {
     'inbatch': ['DT_In.py', 'DT_InSV.py', 'DT_Util.py'],
     'inbatchsortexpr': ['DT_In.py', 'DT_InSV.py', 'DT_Util.py'],
     'tree': ['TreeTag.py'],
+    'treedocs': ['TreeTag.py'],
     'sub': ['DT_String.py'],
 }
 SMALL = ('var', 'expr', 'if', 'tiny', 'with', 'withonly', 'withmaponly',
